@@ -30,6 +30,7 @@ func init() {
 			for _, g := range gadgetFuncs {
 				name := "expr/exprtools." + g
 				units = append(units, c.ContractUnits(name, func(us *UnitSpec) {
+					us.CallHook = c.gadgetHook(name)
 					w, hasW := us.Enum["w"]
 					ew, hasE := us.Enum["ew"]
 					if c.Tier != "thorough" && hasW && hasE {
